@@ -195,6 +195,14 @@ theorem complete_sets :
       ∃ e ∈ Generated.coeffKeyTable, e.1 = name ∧ ∀ k ∈ Generated.requiredCoeffKeys, k ∈ e.2 := by
   decide +kernel
 
+/-- no object of the shipped file writes a key twice (the parser would keep the last one and drop the other silently, so
+that a mistyped key - `d3` for `d4` - would pass for a complete set) -/
+theorem no_duplicate_keys : Generated.coeffDuplicateKeys = [] := by decide
+
+/-- the shipped file is the one this verification was last validated against (md5 pinned by hand in the spec snapshot: a
+change of the data together with a refreshed entry in the code's own hash table must be looked at, not waved through) -/
+theorem shipped_file_pinned : Generated.shippedMd5 = "e8735ec394ecdb87b7edcd261e72d2eb" := by decide
+
 /-- The shipped file is recognised, under the name the code registers for its md5. -/
 theorem version_known :
     Generated.versionHashes.lookup Generated.shippedMd5 = some "PATMOS-x, v2023" := by
